@@ -1470,11 +1470,15 @@ func (s *Store) DeleteSeries(database string, sources []influxql.Source, conditi
 			} else if itr == nil {
 				continue
 			}
-			defer itr.Close()
-			if err := sh.DeleteSeriesRange(NewSeriesIteratorAdapter(sfile, itr), min, max); err != nil {
+			// Close the iterator as soon as this measurement is done. It holds a
+			// reference to the index's files: kept open until the function returns,
+			// the delete of the next measurement waits for a TSI log compaction
+			// (tsi1.Index.Wait) which itself waits for that reference to be released.
+			err = sh.DeleteSeriesRange(NewSeriesIteratorAdapter(sfile, itr), min, max)
+			itr.Close()
+			if err != nil {
 				return err
 			}
-
 		}
 
 		return nil
